@@ -147,6 +147,7 @@ func checkC01Alias(res *Result, S *Streams) {
 			}
 		}
 	}
+	checkToAliasMapPairs(res, rule)
 	if writerKey == "" || readerKey == "" {
 		res.undecided(rule, "streams", "-", "orientation of the @context object in Serialize and toAliasMap", fmt.Sprintf("writer: %q, reader: %q", writerKey, readerKey))
 		return
@@ -190,4 +191,67 @@ func claimsIgnoreAlias(S *Streams) (bool, int, []string) {
 	}
 	sort.Strings(bad)
 	return len(bad) == 0, n, bad
+}
+
+// checkToAliasMapPairs: rule (d) of C01-R9, shared with C14.
+func checkToAliasMapPairs(res *Result, rule string) {
+	// (d) both spellings: a vocabulary URI with an http(s) scheme is entered into the alias map under
+	// its http and its https spelling (the generated readers look the alias up under one canonical
+	// spelling only). Every store into toAliasMap's result either uses a key produced by the
+	// http/https helper, or lies where that helper said "not an http(s) URI".
+	sp := loadStreamsRootSSA()
+	if sp == nil {
+		return
+	}
+	pos := func(p interface{ Pos() token.Pos }) string { return relPos(sp.Prog.Fset, p.Pos()) }
+	if fn := sp.Func("toAliasMap"); fn != nil {
+		ff := computeFacts(fn)
+		isPair := func(c *ssa.Call) bool {
+			sig := c.Call.Signature()
+			return sig.Results().Len() == 3 && sig.Results().At(0).Type().String() == "bool" && sig.Results().At(1).Type().String() == "string" && sig.Results().At(2).Type().String() == "string"
+		}
+		var pairCalls []*ssa.Call
+		for _, b := range fn.Blocks {
+			for _, ins := range b.Instrs {
+				if c, ok := ins.(*ssa.Call); ok && !c.Common().IsInvoke() && isPair(c) {
+					pairCalls = append(pairCalls, c)
+				}
+			}
+		}
+		nStore, badStore := 0, ""
+		for _, b := range fn.Blocks {
+			for _, ins := range b.Instrs {
+				mu, ok := ins.(*ssa.MapUpdate)
+				if !ok || mu.Map.Type().String() != "map[string]string" {
+					continue
+				}
+				// copying the entries of a nested result (r := toAliasMap(elem); m[k] = val) is not a registration
+				if ex, ok := unwrap(mu.Key).(*ssa.Extract); ok {
+					if nx, isNext := ex.Tuple.(*ssa.Next); isNext {
+						if rg, ok := nx.Iter.(*ssa.Range); ok && rg.X.Type().String() == "map[string]string" {
+							continue
+						}
+					}
+				}
+				nStore++
+				okS := false
+				if ex, ok := unwrap(mu.Key).(*ssa.Extract); ok && (ex.Index == 1 || ex.Index == 2) {
+					if c, ok := ex.Tuple.(*ssa.Call); ok && isPair(c) {
+						okS = true
+					}
+				}
+				if !okS {
+					for _, c := range pairCalls {
+						if okx := extractOf2(c, 0); okx != nil && ff.has(mu, okx, fFALSE, "") {
+							okS = true
+						}
+					}
+				}
+				if !okS {
+					badStore = pos(mu)
+				}
+			}
+		}
+		res.check(nStore >= 3 && badStore == "", rule, "toAliasMap", pos(fn), "every vocabulary is registered under its http and its https spelling (or is known not to be an http(s) URI)", "the store at "+badStore+" registers the URI as written only: an alias bound to the other scheme's spelling of a vocabulary is not found by the generated readers")
+	}
 }
